@@ -506,6 +506,9 @@ def gillespie_oracle(g, rs, cur, t, e):
             cum += F(r)
         bounds = [abs(xc - sum((F(x[1]) for x in tr[:i]), F(0))) for i in range(len(tr) + 1)]
         if min(bounds) < F(a) / 10**12: return None
+    mine = [x for x in tr if x[2] is cur['ef'] and (cur['locus'] is None or x[0] is cur['locus'] or type(x[0]).__name__ == 'SingletonLocus')]
+    if mine and all(x[1] <= 0 for x in mine):
+        return f"event {mine[0][3]} fired although its rate in this iteration is {mine[0][1]} (rates {[x[1] for x in tr]})"
     (l, r, f, nm) = tr[idx]
     if r <= 0: return f"event {nm} has rate {r} but was selectable (r2*a={float(xc) if len(tr) > 1 else None})"
     if f is not cur['ef']:
@@ -771,11 +774,11 @@ def run_case(case):
                 info['oracle'].append(('sync', f"timestep time {t} is not a positive whole number"))
             return evs
 
-        def postEvent(self, t, p, e, ef, name=None):
+        def postEvent(self, t, p, e, ef, name=None, *more, **kw):
             cell = {}
             past = t < self.currentSimulationTime()
             try:
-                i = super().postEvent(t, p, e, wrap(ef, posted_time=t, cell=cell), name)
+                i = super().postEvent(t, p, e, wrap(ef, posted_time=t, cell=cell), name, *more, **kw)
             except ValueError:
                 if not past: qviol(f"postEvent({t}) at time {self.currentSimulationTime()} raised ValueError")
                 raise
@@ -1012,6 +1015,14 @@ def run_case(case):
                        f"steps={md[SynchronousDynamics.TIMESTEPS_WITH_EVENTS]} leftover={left}{mon}")
         info['results'] = {k: v for k, v in res.items() if isinstance(v, (int, float, str))}
         info['metadata_events'] = md[Dynamics.EVENTS]; info['time'] = md[Dynamics.TIME]
+        if case['dyn'] == 'sto' and md[Dynamics.TIME] < top.maximumTime() and not any(type(q).__name__ in ('Opinion', 'NetworkStatistics') for q in st['ex'].leaves):
+            # the loop only gives up before the maximum time when nothing can happen any more
+            tot = 0.0
+            for q in top.allProcesses():
+                for (l, pr, f, nm) in q.perElementEventDistribution(md[Dynamics.TIME]): tot += pr * sum(1 for _ in l)
+                for (l, pr, f, nm) in q.fixedRateEventDistribution(md[Dynamics.TIME]): tot += pr
+            if tot > 0.0:
+                info['oracle'].append(('gillespie', f"the run stopped at {md[Dynamics.TIME]}, before its maximum time {top.maximumTime()}, with a total event rate of {tot}"))
         if case['dyn'] == 'sto':
             late = [(tt, j) for j, (tt, _) in ref.items() if tt < md[Dynamics.TIME]]
             if late: qviol(f"run ended at {md[Dynamics.TIME]} with event id {min(late)[1]} still pending for {min(late)[0]}")
